@@ -157,6 +157,48 @@ def run_normaliser(task):
                 diffs.append(z3.Not(ok) if not isinstance(ok, bool) else z3.BoolVal(not ok))
             if diffs:
                 viol(I, zor(diffs), 'bytes-rewritten', 'a byte is neither kept nor blanked (or a line break moved)')
+            # which bytes were blanked, and are they the delimiters of this comment form?
+            B = [i for i, (a, b) in enumerate(zip(text, res)) if isinstance(b, int) and b == 32 and not (isinstance(a, int) and a == 32)]
+
+            def eqc(x, c):
+                return (x == c) if not isinstance(x, int) else z3.BoolVal(x == c)
+            n = len(text)
+            if opener == b'/*':
+                if not (0 in B and 1 in B):
+                    viol(I, z3.BoolVal(True), 'opener-not-blanked', 'the /* delimiter is not blanked')
+                closer = None
+                for i in B:
+                    if i >= 2 and i + 1 in B and i + 1 < n:
+                        closer = i          # candidate: two adjacent blanked bytes = "*/"
+                for i in B:
+                    if i >= 2:
+                        viol(I, z3.And(z3.Not(eqc(text[i], 42)), z3.Not(eqc(text[i], 47))), 'non-delimiter-byte-blanked',
+                             'a byte that is neither * nor / was blanked')
+                later = [z3.And(eqc(text[j], 42), eqc(text[j + 1], 47)) for j in range((closer + 1) if closer is not None else 2, n - 1)]
+                if later:
+                    viol(I, zor(later), 'wrong-closing-delimiter-blanked' if closer is not None else 'closing-delimiter-kept',
+                         'the blanked */ is not the last one of the comment' if closer is not None else 'a closing */ exists but was not blanked')
+            elif opener == b'<!--':
+                if not all(k in B for k in range(4)):
+                    viol(I, z3.BoolVal(True), 'opener-not-blanked', 'the <!-- delimiter is not blanked')
+                tail = [i for i in B if i >= 4]
+                if tail:
+                    c = min(tail)
+                    later = [z3.And(eqc(text[j], 45), eqc(text[j + 1], 45), eqc(text[j + 2], 62)) for j in range(c + 1, n - 2)]
+                    if later:
+                        viol(I, zor(later), 'wrong-closing-delimiter-blanked', 'the blanked --> is not the last one of the comment')
+            elif kind == b'link_reference_definition' and B:
+                c = max(B)
+                # the last blanked byte is the title's closing delimiter: no later occurrence of that delimiter may exist
+                later = [z3.And(text[j] == text[c], zor([eqc(text[c], q) for q in (41, 34, 39)])) for j in range(c + 1, n)
+                         if not (isinstance(text[j], int) and isinstance(text[c], int) and text[j] != text[c])]
+                if later:
+                    viol(I, zor(later), 'wrong-closing-delimiter-blanked', 'the blanked closing delimiter of the title is not the last one')
+            elif opener in (b'//', b'#', b'--'):
+                if any(i >= 3 for i in B):
+                    viol(I, z3.BoolVal(True), 'non-delimiter-byte-blanked', 'a byte beyond the line-comment marker was blanked')
+                if B and not all(k in B for k in range(len(opener))):
+                    viol(I, z3.BoolVal(True), 'opener-not-blanked', 'the comment marker is only partly blanked')
         out['cover']['normalised'] = out['cover'].get('normalised', 0) + 1
         if want_sample and len(out['samples']) < 2:
             m = I.ensure_model()
